@@ -234,14 +234,15 @@ pub fn run(ctx: &mut Ctx) {
     let quick = ctx.tier == Tier::Quick;
     ctx.set_budget_secs(if quick { 22 } else { 420 });
     let (seed, shard, n) = (ctx.seed, ctx.shard, ctx.nshards);
-    let cap: u64 = if quick { 30_000_000 } else { 400_000_000 };
+    let cap: u64 = if quick { 12_000_000 } else { 400_000_000 };
     let mut bounds = vec![];
     // exhaustive over the tokenizer alphabet, per delimiter pair
-    for (di, (ds, de)) in DELIMS.iter().enumerate() {
+    let all_delims: Vec<(&str, &str)> = DELIMS.iter().chain(TOK_EXTRA_DELIMS.iter()).copied().collect();
+    for (di, (ds, de)) in all_delims.iter().enumerate() {
         let atoms = tokenizer_atoms(ds, de);
         let maxlen = max_len_for(atoms.len(), cap);
-        bounds.push(json!({"delimiters": [ds, de], "alphabet": atoms.len(), "max_atoms": maxlen}));
-        let frac = 0.8 * (di as f64 + 1.0) / DELIMS.len() as f64;
+        let frac = 0.8 * (di as f64 + 1.0) / all_delims.len() as f64;
+        let mut completed = 0;
         for len in 0..=maxlen {
             let mut stop = false;
             enumerate_sharded(atoms.len(), len, shard, n, |idx| {
@@ -255,7 +256,14 @@ pub fn run(ctx: &mut Ctx) {
                     ctx.count("exhaustive-level-cut-short");
                 }
             });
+            if stop {
+                break;
+            }
+            completed = len;
         }
+        // "completed" is per shard; the orchestrator keeps the value of the first shard, all
+        // shards run the same levels unless their time budget runs out
+        bounds.push(json!({"delimiters": [ds, de], "alphabet": atoms.len(), "max_atoms_completed": completed, "max_atoms_planned": maxlen}));
     }
     ctx.note("exhaustive_bounds", json!(bounds));
     // random long strings
@@ -265,7 +273,7 @@ pub fn run(ctx: &mut Ctx) {
             break;
         }
         let mut r = Rng::for_case(seed, 21, i);
-        let (ds, de) = DELIMS[r.below(DELIMS.len())];
+        let (ds, de) = all_delims[r.below(all_delims.len())];
         let atoms = tokenizer_atoms(ds, de);
         let len = 8 + r.below(40);
         let s: String = (0..len).map(|_| r.pick(&atoms).as_str()).collect();
